@@ -266,6 +266,29 @@ class Runtime:
             return BoundMethod(m.func, obj.cls if isinstance(obj, Obj) else obj)
         return BoundMethod(m, obj)
 
+    def _lru_wrap(self, val):
+        """lru_cache: results that are immutable values need no cache model (the function is deterministic, equal arguments
+        give equal values). A result that is a heap object is ALIASED between calls with equal arguments - a caller that
+        modifies it modifies what every other caller got (seed C19-q). The store lives in the path context (one per path)."""
+        from .objects import Obj as _Obj, PDict as _PDict, Builtin as _Builtin
+        rt = self
+
+        def call(i, a, k):
+            store = i.ctx.__dict__.setdefault("_lru_store", {}).setdefault(id(val), [])
+            for pa, pk, res in store:
+                if len(pa) != len(a) or sorted(pk) != sorted(k):
+                    continue
+                c = core.And(*([i.eq(x, y) for x, y in zip(pa, a)] + [i.eq(pk[n], k[n]) for n in k]))
+                if c is True or (c is not False and i.ctx.branch(core.lift_bool(c))):
+                    return res
+            res = i.call(val, list(a), dict(k))
+            if isinstance(res, (_Obj, _PDict, list, dict, set)):
+                store.append((list(a), dict(k), res))
+            return res
+        b = _Builtin("lru_cache(%s)" % getattr(val, "name", "function"), call)
+        b.wrapped = val
+        return b
+
     def apply_decorator(self, interp, dec, val, frame):
         txt = ast.unparse(dec)
         if txt == "property":
@@ -277,8 +300,9 @@ class Runtime:
         if txt.endswith(".setter"):
             return val
         if txt.startswith("lru_cache") or txt.startswith("functools.lru_cache"):
-            self.theory.note("functools.lru_cache treated as identity (the wrapped function is deterministic)")
-            return val
+            self.theory.note("functools.lru_cache: the wrapped function is executed on every call (deterministic); a MUTABLE result "
+                             "is shared - a later call with equal arguments returns the same object (eviction is not modelled)")
+            return self._lru_wrap(val)
         if txt == "contextmanager":
             val.attrs["contextmanager"] = True
             return val
